@@ -143,13 +143,29 @@ pub struct EscCase {
     pub companions: Vec<(String, String)>,
 }
 
+/// every way of spelling a name the default auto-escape callback treats as HTML/XML: the
+/// extensions html/htm/xml, behind a .j2/.jinja/.jinja2 suffix, in a directory (with a dot of its
+/// own), and names that consist of the extension only
+const MAIN_NAMES: [&str; 14] = [
+    "main.html", "main.xml", "main.htm", "main.html.j2", "main.xml.jinja", "main.htm.jinja2", ".html", ".xml", "mail/.html", "d.d/x.xml", "d.txt/.xml.j2",
+    "a b.html", "\u{e9}.xml", "main.txt.html",
+];
+
+fn main_name() -> BoxedStrategy<String> {
+    prop_oneof![
+        2 => crate::runner::one_of(&["main.html", "main.xml"]).prop_map(|s| s.to_string()),
+        1 => crate::runner::one_of(&MAIN_NAMES).prop_map(|s| s.to_string()),
+    ]
+    .boxed()
+}
+
 fn render(c: &EscCase, html: bool) -> Result<String, String> {
     let mut env = Environment::new();
     env.set_fuel(Some(50_000));
     // the contrib filters / globals and the Python-style string methods are paths of their own
     minijinja_contrib::add_to_environment(&mut env);
     env.set_unknown_method_callback(minijinja_contrib::pycompat::unknown_method_callback);
-    let rename = |n: &str| if html { n.to_string() } else { n.replace(".html", ".txt").replace(".xml", ".txt") };
+    let rename = |n: &str| if html { n.to_string() } else { n.replace(".html", ".txt").replace(".xml", ".txt").replace(".htm", ".txt") };
     for (n, s) in &c.companions {
         let s = if html { s.clone() } else { s.replace(".html", ".txt").replace(".xml", ".txt") };
         let _ = env.add_template_owned(rename(n), s);
@@ -338,8 +354,8 @@ impl Part for Soundness {
                 print::template_default(&b)
             })
         };
-        let free_case = (tmpl(o), prop::collection::vec(tmpl(co), 3), any::<bool>()).prop_map(|(source, comps, xml)| EscCase {
-            main_name: if xml { "main.xml".into() } else { "main.html".into() },
+        let free_case = (tmpl(o), prop::collection::vec(tmpl(co), 3), main_name()).prop_map(|(source, comps, main_name)| EscCase {
+            main_name,
             source,
             companions: ["a.html", "b.html", "c.html"]
                 .iter()
@@ -347,8 +363,8 @@ impl Part for Soundness {
                 .map(|(n, s)| (n.to_string(), s))
                 .collect(),
         });
-        let flow_case = (flow_source(), any::<bool>()).prop_map(|(source, xml)| EscCase {
-            main_name: if xml { "main.xml".into() } else { "main.html".into() },
+        let flow_case = (flow_source(), main_name()).prop_map(|(source, main_name)| EscCase {
+            main_name,
             source,
             companions: flow_companions(),
         });
@@ -467,9 +483,9 @@ impl Part for ExactlyOnce {
     const NAME: &'static str = "escaped_exactly_once";
 
     fn strategy(_tier: Tier) -> BoxedStrategy<EscCase> {
-        once_source()
-            .prop_map(|source| EscCase {
-                main_name: "main.html".into(),
+        (once_source(), main_name())
+            .prop_map(|(source, main_name)| EscCase {
+                main_name,
                 source,
                 companions: vec![
                     ("inc.html".into(), "{{ y }}{% set c2 %}{{ s }}{% endset %}{{ c2 }}".into()),
